@@ -14,7 +14,7 @@ class Ob:
     """
 
     def __init__(self, oid, fn, tier="top", scope="unbounded", funcs=(), eager=False, solver=None,
-                 numeric=True, num_points=3, tags=(), bound=None, max_paths=None, light=False):
+                 numeric=True, num_points=3, tags=(), bound=None, max_paths=None, light=False, numeric_only=False):
         self.id = oid
         self.fn = fn
         self.tier = tier
@@ -27,6 +27,7 @@ class Ob:
         self.tags = tuple(tags)
         self.bound = bound
         self.max_paths = max_paths
+        self.numeric_only = numeric_only    # floating-point corner: interpreted ONLY numerically on the real code (bounded, never counted as proved)
         self.light = light          # path feasibility from the atoms' signs only (definitions r^2=u left out: sound, may explore infeasible paths)
 
     def __repr__(self):
